@@ -1990,7 +1990,8 @@ impl<'a> Searcher<'a> {
                     match op {
                         Op::Eq => match is_glob(&val) {
                             true => {
-                                let regex = self.regex_cache.get(&val);
+                                let key = String::from("glob:") + &val;
+                                let regex = self.regex_cache.get(&key);
                                 match regex {
                                     Some(regex) => {
                                         return regex.is_match(&field_value.to_string());
@@ -2000,7 +2001,7 @@ impl<'a> Searcher<'a> {
                                         let regex = Regex::new(&pattern);
                                         match regex {
                                             Ok(ref regex) => {
-                                                self.regex_cache.insert(val, regex.clone());
+                                                self.regex_cache.insert(key, regex.clone());
                                                 return regex.is_match(&field_value.to_string());
                                             }
                                             _ => {
@@ -2014,7 +2015,8 @@ impl<'a> Searcher<'a> {
                         },
                         Op::Ne => match is_glob(&val) {
                             true => {
-                                let regex = self.regex_cache.get(&val);
+                                let key = String::from("glob:") + &val;
+                                let regex = self.regex_cache.get(&key);
                                 match regex {
                                     Some(regex) => {
                                         return !regex.is_match(&field_value.to_string());
@@ -2024,7 +2026,7 @@ impl<'a> Searcher<'a> {
                                         let regex = Regex::new(&pattern);
                                         match regex {
                                             Ok(ref regex) => {
-                                                self.regex_cache.insert(val, regex.clone());
+                                                self.regex_cache.insert(key, regex.clone());
                                                 return !regex.is_match(&field_value.to_string());
                                             }
                                             _ => {
@@ -2037,7 +2039,8 @@ impl<'a> Searcher<'a> {
                             false => val.ne(&field_value.to_string()),
                         },
                         Op::Rx => {
-                            let regex = self.regex_cache.get(&val);
+                            let key = String::from("rx:") + &val;
+                            let regex = self.regex_cache.get(&key);
                             match regex {
                                 Some(regex) => {
                                     return regex.is_match(&field_value.to_string());
@@ -2046,7 +2049,7 @@ impl<'a> Searcher<'a> {
                                     let regex = Regex::new(&val);
                                     match regex {
                                         Ok(ref regex) => {
-                                            self.regex_cache.insert(val, regex.clone());
+                                            self.regex_cache.insert(key, regex.clone());
                                             return regex.is_match(&field_value.to_string());
                                         }
                                         _ => error_exit("Incorrect regex expression", val.as_str()),
@@ -2055,7 +2058,8 @@ impl<'a> Searcher<'a> {
                             }
                         }
                         Op::NotRx => {
-                            let regex = self.regex_cache.get(&val);
+                            let key = String::from("rx:") + &val;
+                            let regex = self.regex_cache.get(&key);
                             match regex {
                                 Some(regex) => {
                                     return !regex.is_match(&field_value.to_string());
@@ -2064,7 +2068,7 @@ impl<'a> Searcher<'a> {
                                     let regex = Regex::new(&val);
                                     match regex {
                                         Ok(ref regex) => {
-                                            self.regex_cache.insert(val, regex.clone());
+                                            self.regex_cache.insert(key, regex.clone());
                                             return !regex.is_match(&field_value.to_string());
                                         }
                                         _ => error_exit("Incorrect regex expression", val.as_str()),
@@ -2073,7 +2077,8 @@ impl<'a> Searcher<'a> {
                             }
                         }
                         Op::Like => {
-                            let regex = self.regex_cache.get(&val);
+                            let key = String::from("like:") + &val;
+                            let regex = self.regex_cache.get(&key);
                             match regex {
                                 Some(regex) => {
                                     return regex.is_match(&field_value.to_string());
@@ -2083,7 +2088,7 @@ impl<'a> Searcher<'a> {
                                     let regex = Regex::new(&pattern);
                                     match regex {
                                         Ok(ref regex) => {
-                                            self.regex_cache.insert(val, regex.clone());
+                                            self.regex_cache.insert(key, regex.clone());
                                             return regex.is_match(&field_value.to_string());
                                         }
                                         _ => error_exit("Incorrect LIKE expression", val.as_str()),
@@ -2092,7 +2097,8 @@ impl<'a> Searcher<'a> {
                             }
                         }
                         Op::NotLike => {
-                            let regex = self.regex_cache.get(&val);
+                            let key = String::from("like:") + &val;
+                            let regex = self.regex_cache.get(&key);
                             match regex {
                                 Some(regex) => {
                                     return !regex.is_match(&field_value.to_string());
@@ -2102,7 +2108,7 @@ impl<'a> Searcher<'a> {
                                     let regex = Regex::new(&pattern);
                                     match regex {
                                         Ok(ref regex) => {
-                                            self.regex_cache.insert(val, regex.clone());
+                                            self.regex_cache.insert(key, regex.clone());
                                             return !regex.is_match(&field_value.to_string());
                                         }
                                         _ => error_exit("Incorrect LIKE expression", val.as_str()),
